@@ -9,6 +9,9 @@ mod grid;
 mod ringslots;
 mod idle;
 mod seqapi;
+mod prodwrite;
+mod cloneprobe;
+mod lagprobe;
 
 fn run_case(fam: &str, args: &[i128]) -> Vec<i128> {
     match fam {
@@ -17,8 +20,12 @@ fn run_case(fam: &str, args: &[i128]) -> Vec<i128> {
         "gridrec" => grid::run_rec(args),
         "gridnz" => grid::run_nz(args),
         "seqapi" => seqapi::run(args),
+        "seqclone" => seqapi::run_clones(args),
         "ringslots" => ringslots::run(args),
         "idleprobe" => idle::run(args),
+        "prodwrite" => prodwrite::run(args),
+        "cloneprobe" => cloneprobe::run(args),
+        "lagprobe" => lagprobe::run(args),
         _ => panic!("unknown family {fam}"),
     }
 }
